@@ -228,13 +228,13 @@ pred pmMapOK(mm map[uint32]int64, rd int, hi int) = forall p int :: {has(mm, p)}
 
 func litestream.(*WALReader).pageMap(r, ctx, maxBytes) (m, maxOffset, commit, limited, err)
   requires r != nil && r.r != nil && boOK(r.bo) && r.frameN >= 0
-  requires r.pageSize % 8 == 0 && r.pageSize <= 65536
+  assumes r.pageSize % 8 == 0 && r.pageSize <= 65536        // A-C09-pagesize
   requires 32 + r.frameN * (r.pageSize + 24) <= 4611686018427387904
   requires pm_commitOff == 0 && !pm_lastCommit
   modifies $heap, $alloc, pm_commitOff, pm_lastCommit
   at litestream.(*WALReader).ReadFrame#1 set pm_commitOff = ($result2 == nil && $result1 != 0 ? pmCur(r) : pm_commitOff)
   at litestream.(*WALReader).ReadFrame#1 set pm_lastCommit = ($result2 == nil ? $result1 != 0 : pm_lastCommit)
-  ensures [C09.commit-gate] err == nil ==> pmMapOK(m, r.r, pm_commitOff)
+  ensures [C09.commit-gate] err == nil ==> pmMapOK(m, r.r, pm_commitOff) && pm_commitOff <= 4611686018427387904 && m != nil
   ensures [C09.trim] err == nil ==> (forall p int :: {has(m, p)} has(m, p) ==> p <= commit)
   ensures [C09.max] err == nil && len(m) > 0 ==> (forall p int :: {has(m, p)} has(m, p) ==> m[p] + pmFS(r) <= maxOffset) && (exists p int :: {has(m, p)} has(m, p) && m[p] + pmFS(r) == maxOffset)
   ensures [C09.empty] err == nil && len(m) == 0 ==> maxOffset == 0 && commit == 0
@@ -260,7 +260,7 @@ func litestream.NewWALReader(rd, logger) (r, err)
 
 func litestream.NewWALReaderWithOffset(ctx, rd, offset, salt1, salt2, logger) (r, err)
   requires rd != nil && offset <= 4611686018427387904
-  requires fbe32(rd, 8) % 8 == 0 && fbe32(rd, 8) <= 65536      // A-C09-pagesize
+  assumes fbe32(rd, 8) % 8 == 0 && fbe32(rd, 8) <= 65536      // A-C09-pagesize
   modifies $heap, $alloc
   ensures [C09.resume] err == nil ==> r != nil && r.r == rd && r.salt1 == salt1 && r.salt2 == salt2 && boOK(r.bo) && r.pageSize == fbe32(rd, 8) && r.frameN >= 1
   ensures [C09.resume-pos] err == nil ==> 32 + r.frameN * (r.pageSize + 24) == offset
@@ -274,10 +274,11 @@ func litestream.NewWALReaderWithOffset(ctx, rd, offset, salt1, salt2, logger) (r
 pred lockPg(ps int) = sdiv(1073741824, ps) + 1
 
 func litestream.(*DB).writeLTXFromDB(db, ctx, enc, walFile, commit, pageMap) (err)
-  requires db != nil && enc != nil && 1 <= db.pageSize && db.pageSize <= 65536 && commit < 4294967295
-  requires enc_last[enc] == 0 && (forall p int :: !enc_pages[enc][p])
+  requires db != nil && enc != nil
+  assumes 1 <= db.pageSize && db.pageSize <= 65536 && commit < 4294967295     // A-pagesize: DB.pageSize is a valid SQLite page size
+  requires enc_last[enc] == 0 && (forall p int :: {enc_pages[enc][p]} !enc_pages[enc][p])
   requires forall p int :: {has(pageMap, p)} has(pageMap, p) ==> 0 <= pageMap[p] && pageMap[p] < 4611686018427387904
-  modifies $heap, $alloc, enc_pages, enc_last
+  modifies $heap, $alloc, enc_pages, enc_last, path_synced
   at ltx.(*Encoder).EncodePage#all assert [C17.lock-def] lockPgno == lockPg(db.pageSize)
   at ltx.(*Encoder).EncodePage#all assert [C17.no-lock] $arg0.Pgno != lockPgno
   at ltx.(*Encoder).EncodePage#all assert [C17.snapshot-next] $arg0.Pgno == (enc_last[enc] + 1 == lockPgno ? enc_last[enc] + 2 : enc_last[enc] + 1) && $arg0.Pgno <= commit
@@ -289,11 +290,12 @@ func litestream.(*DB).writeLTXFromDB(db, ctx, enc, walFile, commit, pageMap) (er
   loop 0 invariant forall p int :: {enc_pages[enc][p]} enc_pages[enc][p] <==> (1 <= p && p < pgno && p != lockPgno)
 
 func litestream.(*DB).writeLTXFromWAL(db, ctx, enc, walFile, prevCommit, commit, pageMap) (err)
-  requires db != nil && enc != nil && pageMap != nil && 1 <= db.pageSize && db.pageSize <= 65536 && commit < 4294967295
-  requires enc_last[enc] == 0 && (forall p int :: !enc_pages[enc][p])
+  requires db != nil && enc != nil && pageMap != nil
+  assumes 1 <= db.pageSize && db.pageSize <= 65536 && commit < 4294967295     // A-pagesize
+  requires enc_last[enc] == 0 && (forall p int :: {enc_pages[enc][p]} !enc_pages[enc][p])
   requires forall p int :: {has(pageMap, p)} has(pageMap, p) ==> 0 <= pageMap[p] && pageMap[p] < 4611686018427387904
-  requires !has(pageMap, lockPg(db.pageSize)) && !has(pageMap, 0)     // A-C17-wal: SQLite never writes page 0 or the lock page into the WAL
-  modifies $heap, $alloc, enc_pages, enc_last
+  assumes !has(pageMap, lockPg(db.pageSize)) && !has(pageMap, 0)     // A-C17-wal: SQLite never writes page 0 or the lock page into the WAL
+  modifies $heap, $alloc, enc_pages, enc_last, path_synced
   at ltx.(*Encoder).EncodePage#all assert [C17.lock-def] lockPgno == lockPg(db.pageSize)
   at ltx.(*Encoder).EncodePage#all assert [C17.no-lock] $arg0.Pgno != lockPgno
   at ltx.(*Encoder).EncodePage#all assert [C17.incremental-order] $arg0.Pgno > enc_last[enc]
